@@ -209,6 +209,11 @@ func loadContext(wantPkgs []string, fileOverlay map[string][]byte, findings *Fin
 				rs = append(rs, r)
 			}
 		}
+		expanded, xerr := expandTemplates(p, c.contracts[pp])
+		if xerr != nil {
+			return nil, xerr
+		}
+		c.contracts[pp] = expanded
 		gen, gerr := generateOverlay(p, c.contracts[pp], rs)
 		if gerr != nil {
 			return nil, gerr
